@@ -27,6 +27,11 @@ CHECKS = {
    text='x12norm.main() is run in-process on generated files given by path under every combination of -e, -f and {stdout, -o, -i}; output is tokenised by the reference tokeniser and compared with the input segments (content), with the exact expected text layout, with a second pass (byte-for-byte idempotence) and, under -f, with the independently computed repair (true IEA01/GE01/SE01/HL01, nothing else altered) plus an envelope audit and a pyx12 re-read. Quick 2400 files, thorough 9600.',
    design_ref='3/C20', technique='Hypothesis structured generation; round-trip/idempotence metamorphic relations and a reference repair model',
    note='Trusted: vpx/x12ref.py, vpx/envmodel.py, _repair() in vpx/props/c20.py. Inputs are readable interchanges whose only defects are the count fields; in-process call of main() (argv/stdout patched), not a subprocess.'),
+ 'C14': dict(
+   category='exploration',
+   text='The domain is finite and is enumerated completely in both tiers: every syntax note of every segment node of every indexed map x every segment length 0..max+1 x every presence pattern of the mentioned positions (35k cases), plus, for segments with several notes, every pattern over the union of their positions (140k cases). is_syntax_valid must equal the X12 definition; segment validation must surface exactly one element error per violated note with code 10 (E) or 2, none for a satisfied one.',
+   design_ref='3/C14', technique='exhaustive enumeration of the finite (map node, note, pattern, length) space against an independent evaluator of the X12 condition designators',
+   note='Trusted: parse_note()/violated() in vpx/props/c14.py; own XML read of the maps (vpx/mapmodel.py). Present elements carry the value "X"; a map that pyx12 cannot load (841) is skipped here and reported by C16.'),
 }
 for pid in CHECKS:
     ENGINES[0]['serves_properties'].append(pid)
